@@ -94,7 +94,7 @@ PROPS = {
         comps=['res', 'keyset', 'order', 'ents', 'sizes', 'cur', 'max', 'clone_cap', 'clone_fresh', 'drops', 'bsim'],
         ops=['clone'],
         comps_any=['oth'],
-        theorems=['C14_equal', 'C14_fresh', 'C14_inv', 'C14_footprint_touch', 'C14_footprint_remove', 'C14_footprint_insert', 'C14_independent'],
+        theorems=['C14_equal', 'C14_fresh', 'C14_inv', 'C14_footprint_touch', 'C14_footprint_remove', 'C14_footprint_insert', 'C14_independent', 'C14_pointer_level'],
         assumptions=['independence is observed as: after every operation on one cache the structural fingerprint (addresses, links, sizes, scalars) of every other live cache is bit-for-bit unchanged (flag oth)'],
     ),
     'C15': dict(
